@@ -480,9 +480,79 @@ def extract_state():
     return {"hiddenState": hidden, "pickleDropped": dropped, "pickleMisordered": misordered}
 
 
+PATH_MODULES = ["ldar_sim_run.py", "simulation/simulation_manager.py", "initialization/initialize_infrastructure.py",
+                "initialization/initialize_emissions.py", "initialization/preseed.py"]
+_DICT_ROOTS = {"virtual_world": "vw", "programs": "prog", "methods": "prog"}   # methods alias the program dicts
+
+
+def _root_name(e):
+    """base of an attribute / subscript / call chain: self.virtual_world[...][...] -> 'virtual_world'"""
+    while True:
+        if isinstance(e, ast.Subscript):
+            e = e.value
+        elif isinstance(e, ast.Call):
+            e = e.func
+        elif isinstance(e, ast.Attribute):
+            if isinstance(e.value, ast.Name) and e.value.id == "self":
+                return e.attr
+            e = e.value
+        elif isinstance(e, ast.Name):
+            return e.id
+        else:
+            return None
+
+
+def extract_hash_view():
+    """what the hasher gets to see:
+      hashWholeFile  hash_file feeds the file to the hasher until EOF (loop / unbounded read), not one
+                     bounded read
+      removedKeys    (dictionary, statement) for every pop / popitem / clear / del applied to the
+                     virtual-world or program dictionaries (or the method dictionaries aliasing them)
+                     on the way from parameter intake to hash_dict"""
+    path = os.path.join(shim.REPO_SRC, "initialization", "initialize_infrastructure.py")
+    tree = ast.parse(open(path).read())
+    hf = _func(tree, "hash_file", path)
+    loops = [n for n in ast.walk(hf) if isinstance(n, (ast.For, ast.While, ast.ListComp, ast.GeneratorExp))]
+    in_loop = set()
+    for lp in loops:
+        for n in ast.walk(lp):
+            in_loop.add(id(n))
+    reads = [n for n in ast.walk(hf) if isinstance(n, ast.Call) and isinstance(n.func, ast.Attribute)
+             and n.func.attr in ("read", "read1", "readline", "readinto")]
+    if not reads:
+        raise ExtractError(f"{path}:{hf.lineno}: hash_file does not read its file in a recognised way")
+    whole = all((not r.args and not r.keywords and r.func.attr == "read") or id(r) in in_loop for r in reads)
+    updates = [n for n in ast.walk(hf) if isinstance(n, ast.Call) and isinstance(n.func, ast.Attribute)
+               and n.func.attr == "update"]
+    if not updates:
+        raise ExtractError(f"{path}:{hf.lineno}: hash_file never updates the hasher")
+    hd = _func(tree, "hash_dict", path)
+    dumps = [n for n in ast.walk(hd) if isinstance(n, ast.Call) and ast.unparse(n.func) == "json.dumps"]
+    if len(dumps) != 1 or not (isinstance(dumps[0].args[0], ast.Name) and dumps[0].args[0].id == hd.args.args[0].arg):
+        raise ExtractError(f"{path}:{hd.lineno}: hash_dict does not serialise the dictionary it is given")
+    removed = []
+    for rel in PATH_MODULES:
+        pth = os.path.join(shim.REPO_SRC, rel)
+        tr = ast.parse(open(pth).read())
+        base = os.path.basename(rel)
+        for n in ast.walk(tr):
+            tgt = None
+            if isinstance(n, ast.Call) and isinstance(n.func, ast.Attribute) \
+                    and n.func.attr in ("pop", "popitem", "clear", "__delitem__"):
+                tgt = n.func.value
+            elif isinstance(n, ast.Delete):
+                for d in n.targets:
+                    if isinstance(d, ast.Subscript):
+                        tgt = d.value
+            if tgt is not None and _root_name(tgt) in _DICT_ROOTS:
+                removed.append((_DICT_ROOTS[_root_name(tgt)], f"{base}:{n.lineno} {ast.unparse(n)[:80]}", n.lineno))
+    return {"hashWholeFile": (whole, reads[0].lineno), "removedKeys": removed}
+
+
 def extract():
     t = {}
     t.update(extract_state())
+    t.update(extract_hash_view())
     t.update(extract_infrastructure())
     e = extract_emissions()
     p = extract_preseed()
@@ -534,6 +604,9 @@ def render(t):
         "  seedWrites := [" + ", ".join(f".{f}" for f, _ in t["seedWrites"]) + "]",
         "  tsWrites := [" + ", ".join(f".{f}" for f, _ in t["tsWrites"]) + "]",
         "  tsExact := " + ("true" if t["tsExact"][0] else "false"),
+        "  hashWholeFile := " + ("true" if t["hashWholeFile"][0] else "false"),
+        "  vwKeysRemoved := " + ("true" if any(r[0] == "vw" for r in t["removedKeys"]) else "false"),
+        "  progKeysRemoved := " + ("true" if any(r[0] == "prog" for r in t["removedKeys"]) else "false"),
         "  periodOf := fun v => match v / 4 with"
         + "".join(f" | {i} => ({a}, {b})" for i, (a, b) in enumerate(PERIODS[:-1]))
         + f" | _ => ({PERIODS[-1][0]}, {PERIODS[-1][1]})",
@@ -541,6 +614,10 @@ def render(t):
         "/-- state surviving between runs in one interpreter (module / class level containers, memoising",
         "decorators, mutable defaults, copy hooks) in the initialisation modules and the pickled classes -/",
         "def hiddenState : List String := [" + ", ".join(f'"{x}"' for x, _ in t["hiddenState"]) + "]",
+        "/-- (dictionary, statement) removing a key from the virtual-world / program dictionaries between",
+        "parameter intake and hash_dict -/",
+        "def removedKeys : List (String × String) := ["
+        + ", ".join('("%s", "%s")' % (d, st.replace('"', "'").replace("\\", "")) for d, st, _ in t["removedKeys"]) + "]",
         "/-- (class, attribute) assigned on self but not restored by the class's _reconstruct -/",
         "def pickleDropped : List (String × String) := ["
         + ", ".join(f'("{c}", "{a}")' for c, a, _ in t["pickleDropped"]) + "]",
